@@ -557,9 +557,9 @@ func init() {
 				}
 			}
 			if tier == "thorough" {
-				return []*engine.Scenario{mk("c20-queries", []int{4, 1, 1, 2, 0}, 7), removed([]int{3, 0, 1, 5, 0}, 9)}
+				return []*engine.Scenario{removed([]int{3, 0, 1, 5, 0}, 9), mk("c20-queries", []int{4, 1, 1, 2, 0}, 7)}
 			}
-			return []*engine.Scenario{mk("c20-queries", []int{3, 1, 1, 2, 0}, 4), removed([]int{2, 0, 1, 4, 0}, 7)}
+			return []*engine.Scenario{removed([]int{2, 0, 1, 4, 0}, 7), mk("c20-queries", []int{3, 1, 1, 2, 0}, 4)}
 		},
 		Assumptions: []string{
 			"reference enumeration: the list-based model of pending unbondings/redelegations (the one C02/C07/C15 validate against the store) and a raw decode of the delegation records",
